@@ -37,6 +37,7 @@ def traffic(t, others):
         ops.append("settle")
     if t in RECV:
         ops += ["recv"] * 5
+        ops += ["wire a"]          # drain: what was written to a before the failure could be observed
     if t in ("PUB", "XPUB"):
         ops += ["send 5a31", "send 5a32", "send 5a33"]
     elif t == "ROUTER":
@@ -135,7 +136,10 @@ def judge(line, obs, orc):
     registered = att_a.startswith("att:a=ok")
     recvs = [tk for op, tk in po if op[0] == "recv"]
     sends = [(op, tk) for op, tk in po if op[0] == "send"]
-    wires = {op[1]: tk.split("=", 1)[1] for op, tk in po if op[0] == "wire"}
+    wires = {}
+    for op, tk in po:
+        if op[0] == "wire":
+            wires[op[1]] = tk.split("=", 1)[1]        # the last snapshot of each connection (a: after the recv block)
     dropped = [tk for op, tk in po if op[0] == "dropped"][0].split("=")[1]
     nerr = sum(1 for r in recvs if r.startswith("r=err"))
     write_fault = cid.startswith("w")
@@ -190,6 +194,8 @@ def judge(line, obs, orc):
                 seen = True
         if t == "ROUTER" and error_seen and any(op[1].startswith("@a") and tk == "s=ok" for op, tk in sends):
             return "ROUTER routed a message to a peer whose failure it had reported"
+        if t in RECV and t != "REQ" and error_seen and wires.get("a", "-") != "-":
+            return "bytes were written to the failed connection after recv had reported its failure: %s" % wires.get("a")[:60]
     else:
         # clean end of stream seen by the fair queue / never looked at: known class when the read side is gone but the rest is kept
         if t in ("PULL", "SUB", "DEALER", "ROUTER", "REP", "XPUB") and not write_fault and dropped == "r":
